@@ -18,7 +18,7 @@ import nlgen, c19gen
 
 CHAIN_RE = re.compile(r'(_(\d+|slk|equ)_)*\Z')
 TOKSTART_RE = re.compile(r'_[^_]+_')
-N_THEOREMS = 25
+N_THEOREMS = 26
 
 
 def hx(s):
@@ -265,7 +265,12 @@ def gen_case(ck, rng, idx, workdir, size):
     """generate model + files + configuration (consumes the PRNG; runs nothing)"""
     stub = os.path.join(workdir, 'm%d' % idx)
     g = c19gen.Gen(rng, size)
-    m = g.model()
+    conic = (idx % 4 == 3)
+    if conic:
+        g.family = 'conic'
+        m = g.conic_model()
+    else:
+        m = g.model()
     m.write(stub, names=False)
     variant = rng.choice(FILE_VARIANTS)
     mode = rng.choice([1, 1, 2, 2, 3, 0])
@@ -281,11 +286,20 @@ def gen_case(ck, rng, idx, workdir, size):
         elif k == 2:
             multi = True
             opts.append('obj:multi=1')
-    accept = c19gen.gen_accept(rng)
+    qenv = None
+    if conic:
+        accept = c19gen.gen_accept_conic(rng)
+        copts, qenv = c19gen.conic_options(rng)
+        opts += copts
+        if g.has_compl and accept != ['ALL']:
+            accept = accept + ['ComplementarityLinear']
+    else:
+        accept = c19gen.gen_accept(rng)
     if g.sos_groups and accept != ['ALL'] and rng.chance(4, 5):
         accept = accept + [t for t in ('SOS1Constraint', 'SOS2Constraint') if t not in accept]
     nv, nalg, ncon = len(m.vars), len(m.cons), len(m.cons) + len(m.lcons)
     replay = {'seed': ck.seed, 'case': idx, 'stub': os.path.relpath(stub, VERIF), 'options': opts, 'accept': ','.join(accept),
+              'RECSOLVER_QUADOBJ': qenv, 'family': g.family,
               'variant': variant, 'scheme': g.scheme,
               'how': 'VERIF_SEED=%d ./check C19 regenerates build/c19/%s.{nl,col,row}; run build/bin/recsolver-* <stub> -AMPL <options> with RECSOLVER_ACCEPT/RECSOLVER_LOG set' % (ck.seed, os.path.basename(stub))}
     return dict(locals())
@@ -296,6 +310,8 @@ def exec_case(ck, exe, drv, st, case):
     out = []
     g, m, stub, variant, mode, col, row = (case[k] for k in ('g', 'm', 'stub', 'variant', 'mode', 'col', 'row'))
     nobj, multi, objno, opts, accept, nv, nalg, ncon, replay, idx = (case[k] for k in ('nobj', 'multi', 'objno', 'opts', 'accept', 'nv', 'nalg', 'ncon', 'replay', 'idx'))
+    qenv = case['qenv']
+    st.inc('family=' + g.family)
     exp = expected_sources(mode, col, row, nv, ncon, nalg, nobj, objno, multi)
     st.inc('mode=%d' % mode)
     st.inc('files=' + variant)
@@ -304,13 +320,13 @@ def exec_case(ck, exe, drv, st, case):
     linkf = stub + '.links'
     if os.path.exists(linkf):
         os.remove(linkf)
-    r = recsolver.run(exe, stub, options=opts, accept=accept, graph=(exp is not None), timeout=60, env={'RECSOLVER_LINKS': linkf})
+    r = recsolver.run(exe, stub, options=opts, accept=accept, graph=(exp is not None), timeout=60, env={'RECSOLVER_LINKS': linkf}, quadobj=qenv)
     log = r['log']
     if r['rc'] != 0 or not any(e.get('ev') == 'end' for e in log):
         st.inc('run:rejected-or-failed')
         if r['rc'] not in (0, 1) and r['rc'] != 'timeout':
             # does it also die with names switched off?  then it is not a names defect (reported to the lead, counted)
-            r0 = recsolver.run(exe, stub, options=[o for o in opts if not o.startswith('cvt:names')] + ['cvt:names=0'], accept=accept, graph=False, timeout=60)
+            r0 = recsolver.run(exe, stub, options=[o for o in opts if not o.startswith('cvt:names')] + ['cvt:names=0'], accept=accept, graph=False, timeout=60, quadobj=qenv)
             if r0['rc'] == r['rc']:
                 st.inc('run:driver-crash-also-without-names')
                 if len(ck.cov.setdefault('driver_crashes_outside_names', [])) < 3:
@@ -457,7 +473,8 @@ def exec_case(ck, exe, drv, st, case):
     conkeys = sorted(G.con_final)
     q += ['con %d' % G.cell(t, i) for (t, i) in conkeys]
     leafq = ['dvars ' + ' '.join(str(G.cell('dest_vars()', i)) for i in range(len(vnames))),
-             'dcons ' + ' '.join(str(G.cell(t, i)) for (t, i), o in final_cons)]
+             'dcons ' + ' '.join(str(G.cell(t, i)) for (t, i), o in final_cons),
+             'dvars ' + ' '.join(str(G.cell('dest_objs()', i)) for i in range(len(objs)))]
     a = drv.many(q + leafq)
     got = [unhx(h) if re.fullmatch(r'-|([0-9a-f]{2})+', h) else '?' + h for h in a[:len(q)]]
     real = list(vnames) + list(objs) + [G.con_final[k].get('name', '') for k in conkeys]
@@ -489,7 +506,17 @@ def exec_case(ck, exe, drv, st, case):
         st.inc('hyp:%s=%d' % (k, v))
     st.inc('edges', int(runinfo.get('edges', 0)))
     # failing-input class = the first hypothesis of the theorems that this run violates
-    if not hyps['wellfed']:
+    linked = set(anc) | set(root_name)
+    unlinked_v = [i for i in range(len(vnames)) if G.cell('dest_vars()', i) not in linked]
+    unlinked_c = [(t, i) for (t, i), o in final_cons if G.cell(t, i) not in linked]
+    st.inc('delivered-items-without-any-link', len(unlinked_v) + len(unlinked_c))
+    covered = all(x.get('covered') == '1' for x in dinfo)
+    st.inc('hyp:covered=%d' % covered)
+    if covered != (not (unlinked_v or unlinked_c)):
+        out.append(('model:covered-differs', 'Lean coveredB=%s but the python graph walk finds unlinked delivered items %r %r' % (covered, unlinked_v[:3], unlinked_c[:3]), replay, False))
+    if unlinked_v or unlinked_c or not covered:
+        why = 'unlinked-item'                  # a delivered item is neither an original item nor the target of any link entry
+    elif not hyps['wellfed']:
         why = 'unnamed-link-source'            # a link entry ran before its source cell had a name
     elif not hyps['leaves']:
         why = 'delivered-item-also-converted'  # a delivered item is the source of further (named) items
@@ -508,7 +535,7 @@ def exec_case(ck, exe, drv, st, case):
         st.inc('theorem-applies')
         # C19_unique / C19_nonempty apply to this run: with the cells equal (checked above) the real names are
         # pairwise different and non-empty.  Anything else contradicts the theorems => model drift.
-        if pending:
+        if pending and why == 'unexplained':
             out.append(('model:theorem-contradicted', 'all hypotheses of C19_unique/C19_nonempty hold on this run, yet %s' % pending[0][0], replay, False))
     else:
         st.inc('theorem-not-applicable')
